@@ -257,13 +257,13 @@ func ruleCondSnapshot(c *Ctx, r *R) {
 		if !ok || len(ret.Results) != 1 {
 			continue
 		}
-		if _, isErr := ret.Results[0].Type().Underlying().(*types.Interface); !isErr {
+		if _, isErr := returnedValue(ret, 0).Type().Underlying().(*types.Interface); !isErr {
 			continue
 		}
 		states := []StateSet{}
-		if isNilConst(ret.Results[0]) {
+		if isNilConst(returnedValue(ret, 0)) {
 			states = append(states, st)
-		} else if phi, ok := ret.Results[0].(*ssa.Phi); ok && phi.Block() == ret.Block() {
+		} else if phi, ok := returnedValue(ret, 0).(*ssa.Phi); ok && phi.Block() == ret.Block() {
 			for i, e := range phi.Edges { // single exit returning a carried error variable: the nil ways in
 				pb := ret.Block().Preds[i]
 				if isNilConst(e) && len(pb.Instrs) > 0 {
@@ -300,12 +300,12 @@ func ruleCondLockState(c *Ctx, r *R) {
 		if !ok || len(ret.Results) != 1 {
 			continue
 		}
-		if !types.Identical(ret.Results[0].Type(), fn.Signature.Results().At(0).Type()) {
+		if !types.Identical(returnedValue(ret, 0).Type(), fn.Signature.Results().At(0).Type()) {
 			continue
 		}
 		// a single exit that returns a carried variable (`var err error; … err = ctx.Err() …; return err`): one virtual
 		// return per way into the exit block, with the value and the state of that way
-		if phi, ok := ret.Results[0].(*ssa.Phi); ok && phi.Block() == ret.Block() {
+		if phi, ok := returnedValue(ret, 0).(*ssa.Phi); ok && phi.Block() == ret.Block() {
 			for i, e := range phi.Edges {
 				pb := ret.Block().Preds[i]
 				if len(pb.Instrs) == 0 {
@@ -316,12 +316,12 @@ func ruleCondLockState(c *Ctx, r *R) {
 			continue
 		}
 		// a return that merely hands on a helper's result is decided at the helper's own returns
-		if call, ok := ret.Results[0].(*ssa.Call); ok {
+		if call, ok := returnedValue(ret, 0).(*ssa.Call); ok {
 			if cal := staticCallee(&call.Call); cal != nil && cal.Blocks != nil && rootFn(cal).Pkg == fn.Pkg {
 				continue
 			}
 		}
-		rets = append(rets, retState{ret, st, ret.Results[0]})
+		rets = append(rets, retState{ret, st, returnedValue(ret, 0)})
 	}
 	sort.SliceStable(rets, func(i, j int) bool { return rets[i].ret.Pos() < rets[j].ret.Pos() })
 	sawNil, sawErr := false, false
